@@ -10,6 +10,8 @@ import time
 from vf import core
 
 EXIT_HELD, EXIT_VIOLATION, EXIT_INCONCLUSIVE = 0, 1, 2
+# self-tests against scratch trees redirect evidence/replay output so that /verif/evidence always describes /repo
+OUT_DIR = os.environ.get('VERIF_OUT', core.VERIF_DIR)
 
 
 def load_known(prop_id):
@@ -129,7 +131,7 @@ def main(argv):
             print('note: listed known finding not observed in this run: property=%s %s' % (prop_id, mech))
     nviol = 0
     if unknown:
-        rdir = os.path.join(core.VERIF_DIR, 'replay', prop_id)
+        rdir = os.path.join(OUT_DIR, 'replay', prop_id)
         os.makedirs(rdir, exist_ok=True)
         printed = 0
         for clause, mech, n in unknown:
@@ -168,8 +170,8 @@ def main(argv):
     ev = {'property_id': prop_id, 'tier': tier, 'seed': seed, 'level': prop.LEVEL, 'coverage': cov,
           'assumptions': prop.ASSUMPTIONS, 'wall_s': round(wall, 2), 'violations': nviol,
           'verdict': 'violated' if nviol else ('inconclusive' if tot['inconclusive'] else 'held on what was observed')}
-    os.makedirs(os.path.join(core.VERIF_DIR, 'evidence'), exist_ok=True)
-    with open(os.path.join(core.VERIF_DIR, 'evidence', prop_id + '.json'), 'w') as f:
+    os.makedirs(os.path.join(OUT_DIR, 'evidence'), exist_ok=True)
+    with open(os.path.join(OUT_DIR, 'evidence', prop_id + '.json'), 'w') as f:
         json.dump(ev, f, indent=1, default=repr)
     print('%s %s seed=%d: %d cases (+%d extra), %d distinct non-trivial, %d ambiguous skipped, %d unlisted violations, %.1fs' % (
         prop_id, tier, seed, tot['evaluations'], tot['counters'].get('extra_evaluations', 0), len(tot['nontrivial']),
